@@ -53,7 +53,7 @@ func cachedKeyBase(v ssa.Value) ssa.Value {
 
 func ruleC04LatestRevalidated(c *Ctx) {
 	u := c.U1
-	c.rule("C04.latest-revalidated", "every non-nil key returned by keyCache.GetOrLoadLatest is either guarded by the false edge of c.IsInvalid(thatKey) or is the entry built from a loader call made on the true edge; IsInvalid = internal.IsKeyInvalid(key, policy.ExpireKeyAfter) = Revoked() || IsKeyExpired(Created(), expireAfter)", 4)
+	c.rule("C04.latest-revalidated", "every non-nil key returned by keyCache.GetOrLoadLatest is either guarded by the false edge of c.IsInvalid(thatKey) or is the entry built from a loader call made on the true edge; IsInvalid = internal.IsKeyInvalid(key, policy.ExpireKeyAfter) = Revoked() || IsKeyExpired(Created(), expireAfter)", 3)
 	f := u.Method(pkgApp, "keyCache", "GetOrLoadLatest")
 	isInv := u.Method(pkgApp, "keyCache", "IsInvalid")
 	if f == nil || isInv == nil {
@@ -152,7 +152,7 @@ func isParamNamed(v ssa.Value, f *ssa.Function, idx int) bool {
 
 func ruleC04LoaderRejectsInvalid(c *Ctx) {
 	u := c.U1
-	c.rule("C04.loader-rejects-invalid", "a key built from a Metastore.LoadLatest record (systemKeyFromEKR / getValidIntermediateKey / intermediateKeyFromEKR) is only built under record != nil and !isEnvelopeInvalid(record); getValidIntermediateKey unwraps only under !IsKeyInvalid(sk, Policy.ExpireKeyAfter); isEnvelopeInvalid contains expiry and Revoked", 4)
+	c.rule("C04.loader-rejects-invalid", "a key built from a Metastore.LoadLatest record (systemKeyFromEKR / getValidIntermediateKey / intermediateKeyFromEKR) is only built under record != nil and !isEnvelopeInvalid(record); getValidIntermediateKey unwraps only under !IsKeyInvalid(sk, Policy.ExpireKeyAfter); isEnvelopeInvalid contains expiry and Revoked", 3)
 	inv := u.Method(pkgApp, "envelopeEncryption", "isEnvelopeInvalid")
 	if inv == nil {
 		c.unresolved("isEnvelopeInvalid", "(*envelopeEncryption).isEnvelopeInvalid")
@@ -439,7 +439,7 @@ func ruleC05StaleMeansReload(c *Ctx) {
 
 func ruleC05ReloadRefreshes(c *Ctx) {
 	u := c.U1
-	c.rule("C05.reload-refreshes", "on the path of keyCache.load that keeps the cached entry and discards the reloaded key: SetRevoked(reloaded.Revoked()) on the cached key, loadedAt = time.Now(), and the entry is written back; keyCache.write stores the entry it is given (keys.Set) on every path", 4)
+	c.rule("C05.reload-refreshes", "on the path of keyCache.load that keeps the cached entry and discards the reloaded key: SetRevoked(reloaded.Revoked()) on the cached key, loadedAt = time.Now(), and the entry is written back; keyCache.write stores the entry it is given (keys.Set) on every path", 3)
 	f := u.Method(pkgApp, "keyCache", "load")
 	wr := u.Method(pkgApp, "keyCache", "write")
 	if f == nil || wr == nil {
